@@ -124,12 +124,15 @@ def cg_step(chk: common.Check, rng, n_samples: int):
 # --------------------------------------------------------------------------- T2
 
 
-def load_corpus():
+def load_corpus(big: bool = False):
     import qrules
 
     out = {}
     for f in sorted(L.CORPUS.glob("*.json")):
         out[f.name] = qrules.io.load(f)
+    # deterministic rare shapes (HARDENING rule 5): spins 3/2 and 2, three nodes with eta = (+1, -1, -1), chains flipped at
+    # two nodes with unlike eta, identical particles in different branches, explicit L = 0
+    out.update(L.shaped_reactions(big))
     return out
 
 
@@ -178,11 +181,22 @@ def diff_block(obs, blk, names_only=False):
     return None
 
 
-def naming_only_observation(transitions, flags, canonical):
+def naming_only_observation(transitions, flags, canonical, via_setters=False):
     from ampform.helicity.naming import CanonicalAmplitudeNameGenerator, HelicityAmplitudeNameGenerator
 
     p, c, ls = flags
-    if canonical:
+    if via_setters:
+        # HARDENING rule 3: reach the flags through a history of setter calls (each re-registers the mapping)
+        gen = CanonicalAmplitudeNameGenerator(transitions) if canonical else HelicityAmplitudeNameGenerator(transitions)
+        gen.insert_parent_helicities = not p
+        gen.insert_child_helicities = not c
+        gen.generate_sequential_amplitude_suffix(transitions[0])
+        gen.insert_child_helicities = c
+        if canonical:
+            gen.insert_ls_combinations = not bool(ls)
+            gen.insert_ls_combinations = bool(ls)
+        gen.insert_parent_helicities = p
+    elif canonical:
         gen = CanonicalAmplitudeNameGenerator(transitions, insert_parent_helicities=p, insert_child_helicities=c,
                                               insert_ls_combinations=bool(ls))
     else:
@@ -251,7 +265,8 @@ def correspondence(chk: common.Check, corpus, variant, rng, n_synth: int, n_shuf
         flags = (False, True, False) if can else (False, True, None)
         if i % 5 == 4:
             flags = rng.choice(L.flag_combinations(can))
-        obs = naming_only_observation(trs, flags, can)
+        obs = naming_only_observation(trs, flags, can, via_setters=(i % 3 == 1))
+        dist["flags-reached-by-setter-history"] += int(i % 3 == 1)
         text += L.lean_block(L.model_flags(flags), trs)
         cases.append({"label": f"shuffled#{i}", "reaction": None, "flags": flags, "obs": obs, "kind": "shuffled",
                       "names_only": True})
@@ -414,6 +429,10 @@ def _compare_intensities(model_h, hvals, model_c, cvals, rng, n_points):
             pts[s.name] = np.array([rng.uniform(0.05, math.pi - 0.05) for _ in range(n_points)])
         else:
             pts[s.name] = np.array([rng.uniform(-math.pi, math.pi) for _ in range(n_points)])
+    for s in sh:  # boundaries of the angular domain in the last two points
+        if s.name.startswith("theta") and n_points >= 4:
+            pts[s.name][-1] = 0.0
+            pts[s.name][-2] = math.pi
     vh = np.real(np.asarray(fh(*[pts[s.name] for s in sh]), dtype=complex)) * np.ones(n_points)
     vc = np.real(np.asarray(fc(*[pts[s.name] for s in sc]), dtype=complex)) * np.ones(n_points)
     scale = max(1e-12, float(np.max(np.abs(vc))))
@@ -516,7 +535,7 @@ class C03Property:
         cases = []
         corpus = {}
         try:
-            corpus = load_corpus()
+            corpus = load_corpus(thorough)
             vname, variant = infer_variant(chk, corpus)
             if vname != "sound":
                 chk.broken_correspondence(
@@ -531,6 +550,17 @@ class C03Property:
             raise
         except Exception as e:  # noqa: BLE001
             chk.broken_correspondence("real-code", "".join(traceback.format_exception(type(e), e, e.__traceback__))[-1200:])
+
+        # HARDENING rule 6: mapping, coefficient symbols, prefactors and parameter order must not depend on the hash seed
+        try:
+            files = [L.CORPUS / "jpsi_sigma1750.hel.json", L.CORPUS / "chic1_n1440.hel.json", L.CORPUS / "jpsi_n1520.can.json"]
+            runs = L.hashseed_runs(files, [1, 2, 3] if not thorough else [1, 2, 3, 4, 5, 6])
+            for b in L.compare_hashseed_runs(chk, runs, ["mapping", "coefficients_and_prefactors", "parameter_order"], "C03")[:3]:
+                chk.broken_correspondence("hash-seed", b)
+        except common.InfraError:
+            raise
+        except Exception as e:  # noqa: BLE001
+            chk.broken_correspondence("hash-seed", "".join(traceback.format_exception_only(type(e), e))[-400:])
 
         # search on the real code (always)
         found = []
